@@ -152,14 +152,14 @@ def mutants(chk, prop, tier, wd, tape_files):
     rng = random.Random(common.seed())
     outs = []
     heavy = prop in ("C06", "C19")
-    per_start = int(os.environ.get("VERIF_MUTANT_SEEDS", "0")) or ((400 if heavy else 4000) if tier == "quick" else (4000 if heavy else (12000 if prop == "C17" else 30000)))
+    per_start = int(os.environ.get("VERIF_MUTANT_SEEDS", "0")) or ((400 if heavy else 4000) if tier == "quick" else (4000 if heavy else (6000 if prop == "C17" else 30000)))
     for (tapes, n) in tape_files:
         tag = os.path.basename(tapes)[6:-7]
         # the dense corpora (all optional clauses of a construct present) are the richest seeds for sibling swaps: always taken whole
         if tag not in ("DDL", "QueryStatement", "QS_From", "DML", "E12", "dense-DDL", "dense-DML", "dense-QueryStatement") or n == 0:
             continue
         seeds = os.path.join(wd, "struct-%s.ndjson" % tag)
-        ns = harness_json(["gram", "-in", tapes, "-out", os.path.join(wd, "struct.findings"), "-dump", seeds, "-struct"])["sentences"]
+        ns = harness_json(["gram", "-in", tapes, "-out", os.path.join(wd, "struct.findings"), "-dump", seeds, "-struct", "-maxtoks", 60 if tag.startswith("dense-") else 40])["sentences"]
         if ns == 0:
             continue
         take = min(2500 if heavy else 6000, ns) if tag.startswith("dense-") else min(per_start, ns)
